@@ -161,8 +161,8 @@ theorem archived_after_finalizer_pass (cfg : Cfg) (rm : Remotes) (name : String)
     reconcile cfg rm name (reconcile cfg rm name s).1 = ((reconcile cfg rm name s).1, .ok) := by
   have hrec : reconcile cfg rm name s = deletionOrArchival cfg rm s mem := by
     simp only [reconcile, hs, hna, Bool.false_eq_true, ↓reduceIte, hdel, hlc, Bool.false_or, decide_true]
-  have hsf : Sys.setFinalizer { s with freed := s.freed ++ [mem.name] } mem false =
-      ({ s with freed := s.freed ++ [mem.name] }, .ok mem) := setFinalizer_noop _ mem false hf
+  have hsf : Sys.setFinalizer { s with w := s.w.free mem.owner.wref, freed := s.freed ++ [mem.name] } mem false =
+      ({ s with w := s.w.free mem.owner.wref, freed := s.freed ++ [mem.name] }, .ok mem) := setFinalizer_noop _ mem false hf
   rw [hrec, doa_eq]
   simp only [hf, Bool.false_eq_true, ↓reduceIte, hsf]
   rw [doneTail_archived _ _ hlc]
@@ -171,9 +171,9 @@ theorem archived_after_finalizer_pass (cfg : Cfg) (rm : Remotes) (name : String)
       controllerOf := [] } : OSet) = mem2
   have hname2 : mem2.name = mem.name := by rw [← hm2]
   obtain ⟨⟨m', hm'⟩, u1, u2, u3, ⟨rv', u4⟩, u5, _⟩ := updateStatus_quiet
-    { s with freed := s.freed ++ [mem.name] } mem2 mem hq.sets
+    { s with w := s.w.free mem.owner.wref, freed := s.freed ++ [mem.name] } mem2 mem hq.sets
     (by rw [hname2, hn]; exact hs) (by rw [← hm2]; rfl) (by rw [← hm2]; exact hdel)
-  have hstored : (afterStatus (Sys.updateStatus { s with freed := s.freed ++ [mem.name] } mem2) Res.ok).1.sets name =
+  have hstored : (afterStatus (Sys.updateStatus { s with w := s.w.free mem.owner.wref, freed := s.freed ++ [mem.name] } mem2) Res.ok).1.sets name =
       some { mem with controllerOf := [], conds := mem2.conds, rv := rv' } := by
     have hnm : name = mem2.name := by rw [hname2, hn]
     rw [afterStatus_fst, hnm, u4, ← hm2]
